@@ -56,8 +56,7 @@ def main(argv):
                 pass
     missed = [r for r in results if r[2] not in (1, None)]
     print(f'{len(results)} runs, {len(missed)} not caught: {missed}')
-    # restore evidence written by mutant runs? evidence is rewritten by the next regular run; remind the user
-    print('NOTE: evidence/*.json now reflects mutant runs; re-run the affected checks on /repo before committing.')
+    # (runs against a scratch tree write their evidence under .cache/evidence-scratch: evidence/ is not touched)
 
 
 if __name__ == '__main__':
